@@ -150,6 +150,26 @@ func (c *ctxt) o2oState(tag string, acc ident, q payload, info *aclrecordproto.A
 				if j, ok := readKeyOf[string(rr)]; ok {
 					keys = strconv.Itoa(j)
 				}
+				// direct oracle: the read key must not be derivable from what the root publishes (owner
+				// and writer keys, marshalled or raw) — otherwise every holder of the root derives it
+				pubSeeds := append(append([][]byte{}, info.Writers...), info.Owner)
+				for _, b := range append([][]byte{}, pubSeeds...) {
+					if pk, err := crypto.UnmarshalEd25519PublicKeyProto(b); err == nil {
+						pubSeeds = append(pubSeeds, pk.Storage())
+					}
+				}
+				for _, seed := range pubSeeds {
+					if len(seed) == 0 {
+						continue
+					}
+					if ck, err := crypto.DeriveSymmetricKey(seed, crypto.AnysyncReadOneToOneSpacePath); err == nil {
+						if cr, err := ck.Raw(); err == nil && string(cr) == string(rr) {
+							r.Violate(prop, "", "space.o2o.keys.public.oracle",
+								fmt.Sprintf("%s built by %s: the stored 1-1 read key equals DeriveSymmetricKey(<public bytes published in the root>, read path): any holder of the root derives it without a private key", tag, acc.label),
+								[]string{tag + " built by " + acc.label, op})
+						}
+					}
+				}
 			}
 		}
 		me := "0"
